@@ -35,6 +35,8 @@ SPECIAL_HEADERS = {
     "multi_abi.h": "void plain(int);\nvoid __attribute__((stdcall)) std_call(int);\nvoid __attribute__((fastcall)) fast_call(int);\n"
                    "void plain2(long);\nvoid __attribute__((stdcall)) std_call2(long);\nint __attribute__((vectorcall)) vec_call(int);\n"
                    "void __attribute__((ms_abi)) ms(int);\nvoid plain3(char);\n",
+    "static_fn_small.h": "static inline int one(void) { return 1; }\n",
+    "enums.h": "enum Color { RED, GREEN = 5, BLUE };\nenum Cold { ICE, SNOW };\nenum Other { X = 1, Y = 2 };\nstruct HasEnums { enum Color c; enum Cold d; enum Other o; };\n",
     "syntax_error.h": "struct Broken { int a; \nint oops(;\n",
     "includes.h": "#include \"inc1.h\"\n#include \"inc2.h\"\nstruct Top { struct I1 a; struct I2 b; };\n",
     "inc1.h": "#pragma once\nstruct I1 { int x; };\n",
@@ -68,6 +70,19 @@ def build_pool(seed, scratch, tier):
     for nm, hdr in (("a", "includes.h"), ("b", "inc2.h"), ("c", "macros.h"), ("d", "static_fns.h")):
         add(f"depfile-shared-dir-{nm}", hdr, ["--depfile", f"@SHARED@/{nm}.d", "--output", f"@SHARED@/{nm}.rs"],
             watch=[f"@SHARED@/{nm}.d"])
+    # the same wrapper path written by successive generations (history tier only:
+    # two concurrent writers of one path are the caller's own race)
+    add("static-fns-wrap-shared-path-big", "static_fns.h", ["--experimental", "--wrap-static-fns", "--wrap-static-fns-path", "@SHARED@/wrap"],
+        watch=["@SHARED@/wrap.c"], history_only=True)
+    add("static-fns-wrap-shared-path-small", "static_fn_small.h", ["--experimental", "--wrap-static-fns", "--wrap-static-fns-path", "@SHARED@/wrap"],
+        watch=["@SHARED@/wrap.c"], history_only=True)
+    # options whose patterns overlap: the winner must not depend on map order
+    add("override-abi-overlap", "multi_abi.h", ["--override-abi", ".*=C-unwind", "--override-abi", "plain.*=system",
+                                                "--override-abi", "plain2=C", "--", "--target=x86_64-unknown-linux-gnu"])
+    add("enum-style-overlap", "enums.h", ["--rustified-enum", "Co.*", "--constified-enum-module", ".*lor", "--bitfield-enum", "Color",
+                                          "--newtype-enum", "C.*"])
+    add("type-options-overlap", "many_types.hpp", ["--opaque-type", "W1.*", "--blocklist-type", "W1", "--no-copy", "S.*", "--no-debug", "S1.*",
+                                                   "--must-use-type", "S.*", "--", "-x", "c++", "-std=c++14"])
     add("macros", "macros.h", [])
     add("macros-fallback-own-dir", "macros.h", ["--clang-macro-fallback", "--clang-macro-fallback-build-dir", "@OUT@"], outdir="@INST@")
     add("macros2-fallback-own-dir", "macros2.h", ["--clang-macro-fallback", "--clang-macro-fallback-build-dir", "@OUT@"], outdir="@INST@")
@@ -324,6 +339,7 @@ def run(tier, seed):
         usable = [j for j in pool if table[job_key(j)].get("kind") in ("ok", "err")]
         fast = [j for j in usable if not j["id"].startswith("corpus:") or os.path.getsize(j["header"]) < 20000]
         stats["distinct_jobs"] = len(usable)
+        thread_ok = [j for j in fast if not j.get("history_only")]
         contention_groups = [g for g in (
             [j for j in fast if j["id"].startswith("depfile-shared-dir")],
             [j for j in fast if "fallback-default-dir" in j["id"] or
@@ -401,8 +417,13 @@ def run(tier, seed):
             k = 1 + rng.below(12 if quick else 50)
             jobs = []
             anchor = rng.pick(fast)
+            same_path = [j for j in fast if j.get("history_only")]
+            focus = same_path if (same_path and rng.chance(200)) else None
             for _ in range(k):
-                jobs.append(mk(anchor if rng.chance(300) else rng.pick(fast), rng))
+                if focus and rng.chance(600):
+                    jobs.append(mk(rng.pick(focus), rng))
+                else:
+                    jobs.append(mk(anchor if rng.chance(300) else rng.pick(fast), rng))
             scns.append({"op": "c11", "threads": [jobs], "sched": None, "salt": rng.next() if rng.chance(500) else 0,
                          "hash_seed": rng.next()})
         res = run_requests(scns, timeout=900, progress=200, cwd=cwd, env=SHIM_ENV)
@@ -421,7 +442,7 @@ def run(tier, seed):
             nt = 2 + rng.below(7 if quick else 15)
             per = 1 + rng.below(3)
             same = rng.chance(300)
-            anchor = rng.pick(fast)
+            anchor = rng.pick(thread_ok)
             threads = []
             # a third of the scenarios put generations that can meet on shared
             # files (same output directory, same working directory) side by side
@@ -430,7 +451,7 @@ def run(tier, seed):
                 if group:
                     threads.append([mk(rng.pick(group), rng) for _ in range(per)])
                 else:
-                    threads.append([mk(anchor if (same or rng.chance(200)) else rng.pick(fast), rng) for _ in range(per)])
+                    threads.append([mk(anchor if (same or rng.chance(200)) else rng.pick(thread_ok), rng) for _ in range(per)])
             sched = {"seed": rng.next(), "switch_permille": rng.pick([20, 100, 300, 700])}
             if rng.chance(300):
                 sched["pct_depth"] = 1 + rng.below(4)
@@ -517,7 +538,7 @@ def run(tier, seed):
         # ---------------------------------------------------- free-running threads (auxiliary, not replayable)
         if not quick:
             scns = []
-            nofb = [j for j in fast if "fallback-default-dir" not in j["id"]]
+            nofb = [j for j in thread_ok if "fallback-default-dir" not in j["id"]]
             for i in range(200):
                 rng = Rng.for_case(seed, "c11-free", i)
                 new_scenario()
